@@ -8,6 +8,8 @@ import sys
 import time
 
 ROOT = os.path.dirname(os.path.dirname(os.path.abspath(__file__)))
+REPO = os.environ.get("FC_REPO", "/repo")   # a private checkout when a sandbox copy runs a shard of the regression
+OUT = os.environ.get("FC_RESULTS", os.path.join(ROOT, "seeded", "RESULTS.json"))
 
 
 def main():
@@ -17,10 +19,10 @@ def main():
         d = os.path.join(ROOT, "seeded", sid)
         meta = json.load(open(os.path.join(d, "meta.json")))
         props = meta["breaks"]
-        st = subprocess.run(["git", "-C", "/repo", "status", "--porcelain", "--untracked-files=no"], capture_output=True, text=True).stdout
+        st = subprocess.run(["git", "-C", REPO, "status", "--porcelain", "--untracked-files=no"], capture_output=True, text=True).stdout
         if st.strip():
-            sys.exit("/repo has local changes; refusing")
-        subprocess.check_call(["git", "-C", "/repo", "apply", os.path.join(d, "patch.diff")])
+            sys.exit(REPO + " has local changes; refusing")
+        subprocess.check_call(["git", "-C", REPO, "apply", os.path.join(d, "patch.diff")])
         res = {}
         t0 = time.time()
         try:
@@ -29,10 +31,10 @@ def main():
                 v = [l for l in r.stdout.split("\n") if l.startswith("VIOLATION")]
                 res[p] = {"rc": r.returncode, "violations": len(v), "no_failing_input_only": bool(v) and all("no-failing-input-found" in l for l in v)}
         finally:
-            subprocess.check_call(["git", "-C", "/repo", "checkout", "--", "."])
+            subprocess.check_call(["git", "-C", REPO, "checkout", "--", "."])
         out[sid] = {"breaks": props, "result": res, "caught": all(x["rc"] == 1 for x in res.values()), "wall_s": round(time.time() - t0)}
         print(sid, "CAUGHT" if out[sid]["caught"] else "MISSED", {p: x["rc"] for p, x in res.items()}, flush=True)
-        json.dump(out, open(os.path.join(ROOT, "seeded", "RESULTS.json"), "w"), indent=1)
+        json.dump(out, open(OUT, "w"), indent=1)
 
 
 if __name__ == "__main__":
